@@ -651,8 +651,9 @@ func (m *Machine) visit(fr *frame, instr ssa.Instruction) cont {
 		et := in.Type().Underlying().(*types.Slice).Elem()
 		a := make([]Value, ln, cp)
 		z := zero(et)
-		for i := range a {
-			a[i] = copyVal(z)
+		full := a[:cp] // the spare capacity is zeroed memory too (visible after re-slicing)
+		for i := range full {
+			full[i] = copyVal(z)
 		}
 		fr.set(in, Slice{a: a})
 	case *ssa.MakeMap:
